@@ -180,6 +180,7 @@ package main
 
 import (
 	"bufio"
+	"context"
 	"encoding/json"
 	"errors"
 	"io"
@@ -272,6 +273,61 @@ type Case struct {
 	Sib    []Sib ` + "`json:\"sib\"`" + `
 	Rec    bool  ` + "`json:\"rec\"`" + `
 	Keep   []int ` + "`json:\"keep\"`" + ` // deep chains: the user frames whose recorded line the driver asks for
+	Deriv  []string ` + "`json:\"deriv\"`" + ` // derivation steps applied to the logger AFTER caller reporting was switched on
+}
+
+// derive: one derivation step; every one of them yields a logger that still writes to cp, lets every
+// level through and has the same hooks (none adds or removes a hook).
+func derive(l zerolog.Logger, step string, cp io.Writer) zerolog.Logger {
+	switch step {
+	case "Output":
+		return l.Output(cp)
+	case "Output(SyncWriter)":
+		return l.Output(zerolog.SyncWriter(cp))
+	case "Output(MultiLevelWriter)":
+		return l.Output(zerolog.MultiLevelWriter(cp))
+	case "Level":
+		return l.Level(zerolog.TraceLevel)
+	case "Sample":
+		return l.Sample(&zerolog.BasicSampler{N: 1})
+	case "With().Logger()":
+		return l.With().Logger()
+	case "With().Str().Logger()":
+		return l.With().Str("d", "v").Logger()
+	case "With().Timestamp().Logger()":
+		return l.With().Timestamp().Logger()
+	case "With().Stack().Logger()":
+		return l.With().Stack().Logger()
+	case "With().Ctx().Logger()":
+		return l.With().Ctx(context.Background()).Logger()
+	case "UpdateContext":
+		l.UpdateContext(func(c zerolog.Context) zerolog.Context { return c.Str("u", "v") })
+		return l
+	case "copy":
+		l2 := l
+		return l2
+	case "pointer-copy":
+		pl := &l
+		l3 := *pl
+		return l3
+	case "WithContext/Ctx":
+		return *zerolog.Ctx(l.WithContext(context.Background()))
+	case "log.Output":
+		zlog.Logger = l
+		return zlog.Output(cp)
+	case "log.Level":
+		zlog.Logger = l
+		return zlog.Level(zerolog.TraceLevel)
+	case "log.Sample":
+		zlog.Logger = l
+		return zlog.Sample(&zerolog.BasicSampler{N: 1})
+	case "log.With().Logger()":
+		zlog.Logger = l
+		return zlog.With().Logger()
+	case "log.Ctx":
+		return *zlog.Ctx(l.WithContext(context.Background()))
+	}
+	panic("unknown derivation step " + step)
 }
 
 // Sib: a sibling logger derived, AFTER the logger under test exists, from one of its ancestors
@@ -411,6 +467,10 @@ func main() {
 			l = l.Hook(otherHook(i+1, a))
 			anc = append(anc, l)
 		}
+		for _, step := range c.Deriv {
+			l = derive(l, step, cp)
+			anc = append(anc, l)
+		}
 		// siblings: derived later from an ancestor of l, used on their own writer; l must not notice
 		for i, s := range c.Sib {
 			from := anc[len(anc)-1]
@@ -528,6 +588,8 @@ type caseT struct {
 	Sib    []sibT `json:"sib"`
 	Keep   []int  `json:"keep,omitempty"` // deep chains: the frames whose recorded line the program must report (filled by the driver)
 	Rec    bool   `json:"rec,omitempty"`  // wrapper depth by recursion (D > maxChain): frames 2..D share one source line
+	// derivation steps applied after caller reporting was switched on (derive.go); none of them touches the hooks
+	Deriv []string `json:"deriv,omitempty"`
 	K      int    `json:"-"`              // intended skip: the user frame the property promises
 }
 
@@ -625,7 +687,14 @@ func expectedFrames(l leafT, c caseT) []int {
 // standalone: the case as a self-contained Go program (for the reader of a replay file)
 func standalone(l leafT, cs caseT) string {
 	var b strings.Builder
-	b.WriteString("package main\n\nimport (\n\t\"errors\"\n\t\"io\"\n\t\"os\"\n\n\t\"github.com/rs/zerolog\"\n\tzlog \"github.com/rs/zerolog/log\"\n)\n\n")
+	imports := "\t\"errors\"\n\t\"io\"\n\t\"os\"\n"
+	for _, step := range cs.Deriv {
+		if strings.Contains(derivCode[step], "context.") {
+			imports = "\t\"context\"\n" + imports
+			break
+		}
+	}
+	b.WriteString("package main\n\nimport (\n" + imports + "\n\t\"github.com/rs/zerolog\"\n\tzlog \"github.com/rs/zerolog/log\"\n)\n\n")
 	b.WriteString("type P struct {\n\tL *zerolog.Logger\n\tW io.Writer\n\tA, B int\n\tLvl zerolog.Level\n\tErr error\n}\n\n")
 	b.WriteString("type skipHook int\n\nfunc (h skipHook) Run(e *zerolog.Event, _ zerolog.Level, _ string) { e.CallerSkipFrame(int(h)) }\n\n")
 	fmt.Fprintf(&b, "func w0(p *P) { %s } // user frame 0\n", l.Code)
@@ -657,6 +726,9 @@ func standalone(l leafT, cs caseT) string {
 	for _, a := range cs.Post {
 		fmt.Fprintf(&b, "\tl = l.Hook(skipHook(%d))\n%s", a, keep)
 	}
+	for _, step := range cs.Deriv {
+		b.WriteString("\t" + derivCode[step] + " // derived after caller reporting was switched on\n")
+	}
 	for _, s := range cs.Sib {
 		switch s.Kind {
 		case "ctx":
@@ -680,6 +752,9 @@ func standalone(l leafT, cs caseT) string {
 }
 
 func sibNote(cs caseT) string {
+	if len(cs.Deriv) > 0 {
+		return fmt.Sprintf("; after caller reporting was switched on the logger was derived further: %s", strings.Join(cs.Deriv, ", then "))
+	}
 	if len(cs.Sib) == 0 {
 		return ""
 	}
@@ -767,7 +842,7 @@ func runC19(c *Ctx) {
 		}
 	}
 
-	c.Res.Rule = "one source line per (entry point of the generated table x {Caller(), CallerSkipFrame(a).Caller(), Caller(b), CallerSkipFrame(a).Caller(b), caller hook on the logger, CallerSkipFrame(a) + caller hook} x finalizer) and per Print/Printf/Println/Write/log.Print/log.Printf (Write also through an io.Writer value); each run for every wrapper depth d=0..4 and every k<=d, the skip k realised by each single source in turn (CallerSkipFrame, Caller(k), CallerWithSkipFrameCount(2+k), global CallerSkipFrameCount=2+k, an earlier hook calling CallerSkipFrame) and by a seeded random split over all sources, with other hooks absent/present (struct hook, HookFunc, LevelHook); sibling sweep: parents with 0..7 hooks added one call at a time, child by With().Caller()/CallerWithSkipFrameCount with/without a later Hook, then one or two sibling loggers derived from the parent, the grandparent or the child (caller hook with another count, plain hook, frame-skipping hook, two hooks in one call) and used on their own writer - the child's caller field must be unchanged; deep sweep (deep.go): wrapper depths 126..1000 through that many distinct generated helper functions and 32766..65538 through a recursive helper, the skip k at 127/128/129/255/256/257/300/1000 (and 32767/32768/32769/65535/65536/65537 for the recursion) realised by CallerSkipFrame(k), Caller(k), CallerSkipFrame(a).Caller(b) splits, CallerWithSkipFrameCount(2+k), the global, one or two earlier hooks calling CallerSkipFrame and mixtures, always landing on a frame of the run (k <= depth+1); Fatal entries in their own process; non-trivial = k>0 or other hooks present; distinct by (statement, d, parameters)"
+	c.Res.Rule = "one source line per (entry point of the generated table x {Caller(), CallerSkipFrame(a).Caller(), Caller(b), CallerSkipFrame(a).Caller(b), caller hook on the logger, CallerSkipFrame(a) + caller hook} x finalizer) and per Print/Printf/Println/Write/log.Print/log.Printf (Write also through an io.Writer value); each run for every wrapper depth d=0..4 and every k<=d, the skip k realised by each single source in turn (CallerSkipFrame, Caller(k), CallerWithSkipFrameCount(2+k), global CallerSkipFrameCount=2+k, an earlier hook calling CallerSkipFrame) and by a seeded random split over all sources, with other hooks absent/present (struct hook, HookFunc, LevelHook); sibling sweep: parents with 0..7 hooks added one call at a time, child by With().Caller()/CallerWithSkipFrameCount with/without a later Hook, then one or two sibling loggers derived from the parent, the grandparent or the child (caller hook with another count, plain hook, frame-skipping hook, two hooks in one call) and used on their own writer - the child's caller field must be unchanged; deep sweep (deep.go): wrapper depths 126..1000 through that many distinct generated helper functions and 32766..65538 through a recursive helper, the skip k at 127/128/129/255/256/257/300/1000 (and 32767/32768/32769/65535/65536/65537 for the recursion) realised by CallerSkipFrame(k), Caller(k), CallerSkipFrame(a).Caller(b) splits, CallerWithSkipFrameCount(2+k), the global, one or two earlier hooks calling CallerSkipFrame and mixtures, always landing on a frame of the run (k <= depth+1); derivation sweep (derive.go): caller reporting switched on by With().Caller() / CallerWithSkipFrameCount(2+k) (also next to Event.Caller, and Event.Caller alone under the global skip), then the logger derived further by every single step that keeps the hooks - Output (plain, SyncWriter, MultiLevelWriter), Level, Sample, With()...Logger() (empty, Str, Timestamp, Stack, Ctx), UpdateContext, a struct copy, a copy through a pointer, WithContext/Ctx, log.Output, log.Level, log.Sample, log.With().Logger(), log.Ctx (the package-level ones after log.Logger = l) - by pairs of them and by all in a row, with and without a Hook in between, each on statements of every shape rotating through the table: the caller field must still be there and name the user's frame; Fatal entries in their own process; non-trivial = k>0 or other hooks present; distinct by (statement, d, parameters)"
 	c.OpenShards("From Verif Require Import Base.Prelude Misc.CallerTypes Gen.CallChains Misc.Caller Harness.C19H.\nFrom Coq Require Import String.\nOpen Scope string_scope.\nOpen Scope list_scope.\nOpen Scope Z_scope.",
 		"c19_case * option (list (option N))", "mismatches c19_run c19_eqb", 1000)
 
@@ -994,6 +1069,7 @@ func runC19(c *Ctx) {
 		}
 	}
 	c.Res.ExtraCoverage["sibling_sweep_cases"] = nSib
+	c.Res.ExtraCoverage["derivation_sweep_cases"] = deriveSweep(c, leaves, add)
 	nDeep, nRec := deepSweep(c, leaves, add)
 	c.Res.ExtraCoverage["deep_chain_cases"] = nDeep
 	c.Res.ExtraCoverage["deep_recursion_cases"] = nRec
@@ -1076,7 +1152,7 @@ func runC19(c *Ctx) {
 		stmtLine := lineOf[l.Idx]
 		jc := map[string]interface{}{"statement": l.Code, "source": fmt.Sprintf("%s:%d", filepath.Join(pdir, "main.go"), stmtLine),
 			"wrapper_depth": cs.D, "k": cs.K, "a": cs.A, "b": cs.B, "CallerSkipFrameCount": cs.G, "logger_caller": cs.Caller, "n": cs.N,
-			"hooks_before": cs.Pre, "hooks_after": cs.Post, "siblings_derived_later": cs.Sib, "level": cs.Lvl, "err": cs.Err, "own_process": fatalRun,
+			"hooks_before": cs.Pre, "hooks_after": cs.Post, "siblings_derived_later": cs.Sib, "derivation_after_caller": cs.Deriv, "level": cs.Lvl, "err": cs.Err, "own_process": fatalRun,
 			"plan": cs, "standalone": standalone(l, cs),
 			"how_to_replay": "bin/check C19 --replay <this file>; or by hand: build " + pdir + " (its go.mod points at the repository under test) and feed `plan` as one JSON line on stdin"}
 		// wantAt: the recorded file:line of user frame e ("" : outside this run's frames, nothing promised)
@@ -1181,7 +1257,7 @@ func runC19(c *Ctx) {
 		if !fallback && !cs.Rec {
 			c.AddCase(term, jc) // (recursion frames share a source line: the observed index is not determined; monitored only)
 		}
-		key := fmt.Sprintf("%d|%d|%d|%d|%d|%s|%d|%v|%v|%v|%v", l.Idx, cs.D, cs.A, cs.B, cs.G, cs.Caller, cs.N, cs.Pre, cs.Post, cs.Sib, cs.Rec)
+		key := fmt.Sprintf("%d|%d|%d|%d|%d|%s|%d|%v|%v|%v|%v|%v", l.Idx, cs.D, cs.A, cs.B, cs.G, cs.Caller, cs.N, cs.Pre, cs.Post, cs.Sib, cs.Rec, cs.Deriv)
 		c.Count(key, cs.K > 0 || len(cs.Pre)+len(cs.Post) > 0)
 		c.Hist("shape", shapeNames[l.Kind])
 		if cs.D <= 4 {
@@ -1193,6 +1269,9 @@ func runC19(c *Ctx) {
 		c.Hist("other_hooks", fmt.Sprintf("%d", len(cs.Pre)+len(cs.Post)))
 		c.Hist("logger_caller", cs.Caller)
 		c.Hist("siblings", fmt.Sprint(len(cs.Sib)))
+		for _, step := range cs.Deriv {
+			c.Hist("derivation_after_caller", step)
+		}
 		if strings.HasPrefix(l.Entry, "log.") {
 			c.Hist("package", "log")
 		} else {
